@@ -63,10 +63,6 @@ UNSAFE_PROPS = ["C01", "C05", "C14"]
 # a VIOLATION: (file, qualified fn, properties, what is assumed)
 _API = ["C01", "C02", "C04", "C05", "C07", "C08", "C09"]
 PINNED = [
-    ("src/scheduler/scheduler_thread.rs", "SchedulerThread::new", ["C03", "C10", "C15", "C17"], "spawns one OS thread that runs every closure sent to it, in order, once; the thread dies if a closure panics (is_finished becomes true)"),
-    ("src/scheduler/scheduler_thread.rs", "SchedulerThread::run", ["C03", "C10", "C15"], "hands the closure to the thread exactly once, never blocks"),
-    ("src/scheduler/scheduler_thread.rs", "SchedulerThread::is_finished", ["C10", "C15", "C17"], "true iff the OS thread has exited"),
-    ("src/scheduler/scheduler_thread.rs", "SchedulerThread::despawn", ["C10", "C17"], "drops the sender (the thread exits after its current job) and returns the join handle"),
     ("src/scheduler/unsafe_job.rs", "UnsafeJob::new", ["C04", "C14"], "erases the lifetime of the borrowed job; nothing else"),
     ("src/scheduler/unsafe_job.rs", "UnsafeJob::new_with_notification", ["C04", "C14"], "as new, plus the (condvar, flag) pair that Drop for UnsafeJob signals"),
     ("src/scheduler/unsafe_job.rs", "ScheduledJob for UnsafeJob::run", ["C04", "C14"], "runs the borrowed job through the erased pointer, once per call"),
@@ -89,6 +85,7 @@ ASSUMPTIONS = [
     "A10 rely condition: the lock shim's `learn`/`step` postcondition is justified by every lock site on a protected structure being inside a verified function (S-cover, checked every run) and by the meta-lemmas of U-META; interleavings are over-approximated, not enumerated",
     "A11 liveness is not proved: 'eventually runs / returns / is woken' is reduced to the safety obligations P1-P4 of DESIGN.md section 3.6 (no leaked run token, no unpaid reschedule debt, no lost notification pair, no blocking with a lock held) under a fair OS scheduler",
     "A13 the functions listed in specs/table.py PINNED are not under contract; their assumed behaviour is stated there and their text is fingerprinted (S-pin): a change to one of them makes the properties that lean on it UNDECIDED",
+    "A14 a send on a pool thread's job channel does not fail: `SchedulerThread::run` is only called for a thread whose busy flag was seen false under its lock, and such a thread is blocked in `recv` (it runs no user code that could panic and close the channel)",
     "A12 signatures of functions under contract are re-declared in the templates with shim types; the extractor checks parameter names/arity against the repository; bodies are verbatim up to the rewrites R1-R14 listed in DESIGN.md section 2.1",
 ]
 
@@ -116,8 +113,8 @@ BOUNDED = {
 
 _NOTE = ("Safety content proved for all queue states, queue contents and lengths, future ids and thread counts; thread interleavings are "
          "over-approximated by the rely condition at every lock() (A1, A10), not enumerated. Trusted: the shims for std/futures (A5, A6), the "
-         "statement rewrites listed in trusted_base (A7, A12), the 11 functions outside every contract whose assumed behaviour is stated in specs/table.py PINNED "
-         "and whose text is fingerprinted (S-pin, A13: thread/channel/raw-pointer code, constructors, forwarders), Verus/z3 (A3). ")
+         "statement rewrites listed in trusted_base (A7, A12), the 7 functions outside every contract whose assumed behaviour is stated in specs/table.py PINNED "
+         "and whose text is fingerprinted (S-pin, A13: the raw-pointer code of UnsafeJob, the global scheduler's construction, the id counter), Verus/z3 (A3). ")
 _LIVE = "The liveness half ('eventually runs / returns / is woken') is NOT proved; it is reduced to the safety obligations P1-P4 of DESIGN.md 3.6 (A11). "
 
 
